@@ -43,6 +43,24 @@ impl<A: AcceptableMasterList, C: Clock, F: Filter, R: Rng, S: PtpInstanceStateMu
                 let time_properties_ds = &mut state.time_properties_ds;
                 let path_trace_ds = &mut state.path_trace_ds;
 
+                // Check for a clock loop before touching any data set, so that a
+                // discarded announce leaves no trace
+                let path_trace_tlv = if path_trace_ds.enable {
+                    message
+                        .suffix
+                        .tlv()
+                        .find(|tlv| tlv.tlv_type == TlvType::PathTrace)
+                } else {
+                    None
+                };
+                if let Some(tlv) = &path_trace_tlv {
+                    let clock_identity = state.default_ds.clock_identity;
+                    if tlv.value.chunks_exact(8).any(|ci| ci == clock_identity.0) {
+                        log::warn!("Clock loop detected");
+                        return true;
+                    }
+                }
+
                 current_ds.steps_removed = announce.steps_removed + 1;
 
                 parent_ds.parent_port_identity = announce.header.source_port_identity;
@@ -53,25 +71,13 @@ impl<A: AcceptableMasterList, C: Clock, F: Filter, R: Rng, S: PtpInstanceStateMu
 
                 *time_properties_ds = announce.time_properties();
 
-                if path_trace_ds.enable {
-                    if let Some(tlv) = message
-                        .suffix
-                        .tlv()
-                        .find(|tlv| tlv.tlv_type == TlvType::PathTrace)
-                    {
-                        let clock_identity = state.default_ds.clock_identity;
-                        if tlv.value.chunks_exact(8).any(|ci| ci == clock_identity.0) {
-                            log::warn!("Clock loop detected");
-                            return true;
-                        }
-
-                        // Cannot panic as `list` is large enough to contain up to a whole message
-                        path_trace_ds.list = tlv
-                            .value
-                            .chunks_exact(8)
-                            .map(|ci| ClockIdentity(<[u8; 8]>::try_from(ci).unwrap()))
-                            .collect();
-                    }
+                if let Some(tlv) = path_trace_tlv {
+                    // Cannot panic as `list` is large enough to contain up to a whole message
+                    path_trace_ds.list = tlv
+                        .value
+                        .chunks_exact(8)
+                        .map(|ci| ClockIdentity(<[u8; 8]>::try_from(ci).unwrap()))
+                        .collect();
                 }
 
                 false
